@@ -300,6 +300,18 @@ def template_rules(ctx):
     for c in sb.calls_to("async_process::Command::envs"):
         a = arg_origins(c, 1, through=True)
         ctx.require(R7, any("get_env" in x.name for x in a.calls) and a.has_leaf("upvar:1"), c.where(), "the child's environment is the hook data's env", [SINGLE, "envs"])
+    # the template engine runs with its documented defaults (an unknown variable renders empty, as the man page says for variables
+    # of a hook's other types) plus the documented `rev_labels` filter: no other configuration of the minijinja Environment
+    rtb = prog.must_body("acmed::template::render_template")
+    envc = [c for c in rtb.calls if c.bb in rtb.live_blocks() and (c.name or "").startswith("minijinja::environment::Environment")]
+    ctx.floor(R7, "minijinja Environment calls in render_template", len(envc), 3)
+    allowed_env = {"new", "add_filter", "add_template", "get_template", "add_template_owned", "empty"}
+    for c in envc:
+        m = c.name.rsplit("::", 1)[-1]
+        ctx.require(R7, m in allowed_env, c.where(), "render_template does not reconfigure the template engine (Environment::%s)" % m, ["template::render_template", "engine-config", m])
+    flt = [c for c in envc if c.name.endswith("::add_filter")]
+    names = [x.get("str") for c in flt for x in arg_origins(c, 1).consts if "str" in x]
+    ctx.require(R7, "rev_labels" in names, "%s:%s" % (rtb.file, rtb.line), "the documented rev_labels filter is registered (%s)" % names, ["template::render_template", "rev_labels"])
     ge = [b for k, b in prog.bodies.items() if k.endswith("as acmed::hooks::HookEnvData>::get_env")]
     for b in ge:
         sl = origins(b, {"l": 0, "p": []})
